@@ -21,6 +21,8 @@ mod c15;
 mod c16;
 mod c18;
 mod c19;
+mod c20;
+mod sched;
 mod valref;
 mod strsweep;
 mod common;
@@ -39,7 +41,7 @@ fn usage() -> ! {
 }
 
 fn main() {
-    let args: Vec<String> = std::env::args().collect();
+    let mut args: Vec<String> = std::env::args().collect();
     if args.len() < 3 {
         usage();
     }
@@ -72,12 +74,19 @@ fn main() {
                 "C17" => c16::run(c16::Which::C17, tier),
                 "C18" => c18::run(tier),
                 "C19" => c19::run(tier),
+                "C20" => c20::run(tier),
                 _ => {
                     eprintln!("unknown property {id}");
                     2
                 }
             };
             std::process::exit(rc);
+        }
+        "c20-replay" => {
+            while args.len() < 4 {
+                args.push(String::new());
+            }
+            std::process::exit(c20::fresh_replay_main(&args));
         }
         "worker" => {
             let rc = match args[2].as_str() {
@@ -104,6 +113,7 @@ fn main() {
                 "c10" => c10::replay(case),
                 "c11" => c11::replay(case),
                 "c12" => c12::replay(case),
+                "c20" => c20::replay(case),
                 "c18" => c18::replay(case),
                 "val-tree" => c16::replay_tree(case),
                 "val-op" => c16::replay_op(case),
